@@ -856,11 +856,18 @@ impl<'a> Parser<'a> {
                 BinaryOperator::Is => self.parse_test(lhs)?,
                 BinaryOperator::Pipe => self.parse_filter(lhs)?,
                 _ => {
+                    // Only a bare `-`/`not` right after the `~` is refused: `(…)`, `not in`
+                    // and `is not` also produce unary nodes but are fine.
+                    let rhs_starts_with_unary = matches!(
+                        self.next,
+                        Some(Ok((Token::Minus | Token::Ident("not"), _)))
+                    );
                     let rhs = self.inner_parse_expression(r_bp)?;
                     span.expand(&self.current_span);
 
                     // unary operators are not allowed after a ~
                     if op == BinaryOperator::StrConcat
+                        && rhs_starts_with_unary
                         && let Expression::UnaryOperation(uop) = rhs
                     {
                         return Err(Error::syntax_error(
